@@ -247,4 +247,75 @@ theorem r2l_phase (cfg : Cfg α) : ∀ (i : Nat) (es : List α) (s : St α),
       rw [hrg]
       simp [minEv, hi]
 
+/-! ### A whole sweep -/
+
+/-- The object on entry of `sweep_complete` at the end of a sweep that started in `s`, when the
+last local minimisation returned `c`. -/
+def afterSweep (s : St α) (c : Option α) : St α :=
+  { s with curE := c, sweepCount := s.sweepCount + 1 }
+
+theorem sweepPositions_two : sweepPositions 2 = [(0, true), (0, false)] := by
+  simp [sweepPositions]
+
+theorem sweepPositions_ge_three (m : Nat) :
+    (sweepPositions (m + 3)).map (fun p => Event.min p.1 p.2) =
+      (List.range' 0 (m + 1)).map (minEv true) ++ (List.range' 1 (m + 1)).reverse.map (minEv false) := by
+  simp [sweepPositions, Function.comp_def]
+  rfl
+
+theorem sweepPositions_length (n : Nat) (h : 2 ≤ n) :
+    (sweepPositions n).length = if n ≤ 3 then 2 else 2 * (n - 2) := by
+  unfold sweepPositions
+  split_ifs <;> simp <;> omega
+
+/-- **One sweep.** From the start-of-sweep configuration, for every `n ≥ 2` and every energies
+`es` (one per call), the calls are exactly `sweepPositions n`, in this order, no exception can
+escape before `sweep_complete`, and `sweep_complete` runs on the start configuration with
+`current_energy` = the last energy and one more sweep counted. -/
+theorem sweep_run (cfg : Cfg α) (s : St α) (es : List α) (hn : 2 ≤ cfg.n)
+    (hs : SweepStart cfg s) (hu : Unfinished cfg s)
+    (hlen : es.length = (sweepPositions cfg.n).length) :
+    runTape cfg es s =
+      ⟨(sweepComplete cfg (afterSweep s es.getLast?)).st,
+       (sweepPositions cfg.n).map (fun p => Event.min p.1 p.2)
+         ++ (sweepComplete cfg (afterSweep s es.getLast?)).evs,
+       (sweepComplete cfg (afterSweep s es.getLast?)).halt⟩ := by
+  obtain ⟨hd, hi, hl, hr, hc⟩ := hs
+  rcases Nat.lt_or_ge cfg.n 3 with h2 | h3
+  · -- two atoms
+    have hn2 : cfg.n = 2 := by omega
+    rw [hn2, sweepPositions_two] at hlen ⊢
+    match es, hlen with
+    | [e₁, e₂], _ =>
+      rw [runTape_cons cfg e₁ [e₂] s hu,
+        progress_l2r_two cfg s e₁ hd (by omega) (by omega) hi hn2, andThen_none _ rfl]
+      have h2 := runTape_single cfg e₂ ({ s with centre := 1, curE := some e₁, dir := .r2l } : St α) hu
+      have h3 := progress_r2l_last cfg ({ s with centre := 1, curE := some e₁, dir := .r2l } : St α) e₂ rfl
+        (by simp only; omega) (by simp only; omega) (by simp [hi]) (by simp [hi, hn2])
+      have h4 : sweepEndSt ({ s with centre := 1, curE := some e₁, dir := .r2l } : St α) e₂
+          = afterSweep s [e₁, e₂].getLast? := by
+        apply St.ext' <;> simp [sweepEndSt, afterSweep, hi, hd, hc]
+      simp only [h2, h3, h4]
+      simp [hi]
+  · -- at least three atoms
+    obtain ⟨m, hm⟩ : ∃ m, cfg.n = m + 3 := ⟨cfg.n - 3, by omega⟩
+    have hlen' : es.length = (m + 1) + (m + 1) := by
+      rw [hlen, sweepPositions_length _ hn]; split_ifs <;> omega
+    rw [hm, sweepPositions_ge_three]
+    obtain ⟨esL, esR, rfl, hL, hR⟩ : ∃ a b, es = a ++ b ∧ a.length = m + 1 ∧ b.length = m + 1 :=
+      ⟨es.take (m + 1), es.drop (m + 1), by simp, by simp; omega, by simp; omega⟩
+    have hRne : esR ≠ [] := by intro h; simp [h] at hR
+    rw [runTape_append, l2r_phase cfg m esL s hL hd (by omega) (by omega) (by omega) hu,
+      andThen_none _ rfl]
+    simp only
+    have h5 := r2l_phase cfg m esR ({ s with idx := s.idx + (m + 1), left := s.left + (m + 1), right := 1, centre := s.idx + (m + 1), curE := esL.getLast?, dir := .r2l } : St α) hR rfl
+      (by simp only; omega) (by simp only; omega) (by omega) (by simp) hu
+    have hlast : (esL ++ esR).getLast? = esR.getLast? := List.getLast?_append_of_ne_nil _ hRne
+    have h6 : sweepEndOf ({ s with idx := s.idx + (m + 1), left := s.left + (m + 1), right := 1, centre := s.idx + (m + 1), curE := esL.getLast?, dir := .r2l } : St α) (m + 1) esR.getLast?
+        = afterSweep s (esL ++ esR).getLast? := by
+      rw [hlast]
+      apply St.ext' <;> simp [sweepEndOf, afterSweep, hi, hd, hc, hl, hr] <;> omega
+    simp only [h5, h6]
+    simp [hi]
+
 end EmuVerif.Dmrg
